@@ -65,6 +65,7 @@ Init0 == [
   listens  |-> EmptyF,   \* decorator -> number of OnShutdown calls
   fault    |-> FALSE,
   faultAt  |-> 0,
+  faultBar |-> "",       \* the bar whose filler / extender failed ("" for an output error)
   debug    |-> 0,
   notifies |-> <<>>,
   hung     |-> FALSE,
@@ -285,6 +286,13 @@ FinalRules(s, e) ==
       THEN (LET got == Range_(s.notifies[1]) IN
             IF got # {b \in lastS : b \in okb /\ ~Poppable(s, b)} THEN <<B("C05", "notifier-list" \o DpAny(s), e, ToString(<<got, lastS>>))>> ELSE <<>>)
       ELSE <<>>)
+  \* C05/C15: after a render error the notifier still lists every bar that stays in the
+  \* container (the bar whose own rendering failed is not demanded: weaker reading)
+  \o (IF s.cfg.notifier /\ Len(s.notifies) >= 1 /\ s.fault /\ ~s.hung /\ s.detached = {}
+      THEN (LET got  == Range_(s.notifies[1])
+                want == {b \in lastS : b \in okb /\ b # s.faultBar /\ ~(b \in s.termSeen /\ Leaves(s, b))}
+            IN IF want \ got # {} THEN <<B("C05,C15", "notifier-list-after-error", e, ToString(<<want \ got, got>>))>> ELSE <<>>)
+      ELSE <<>>)
   \* C16
   \o (IF e.nleaks # 0
       THEN <<B(IF s.fault THEN "C16,C15" ELSE "C16", "goroutine-leak" \o (IF s.detached # {} THEN "/detached-push"
@@ -387,7 +395,7 @@ Step(s, e) ==
                    !.termCnt = LET tb == {e.groups[i].b : i \in {j \in DOMAIN e.groups : Terminal(e.groups[j].fl)}}
                                IN [b \in DOMAIN @ \cup tb |-> (IF b \in DOMAIN @ THEN @[b] ELSE 0) + (IF b \in tb THEN 1 ELSE 0)],
                    !.fmts = <<>>]
-    [] e.ev = "fault" -> [s EXCEPT !.fault = TRUE, !.faultAt = e.seq]
+    [] e.ev = "fault" -> [s EXCEPT !.fault = TRUE, !.faultAt = e.seq, !.faultBar = IF Has(e, "b") THEN e.b ELSE ""]
     [] e.ev = "debug" -> [s EXCEPT !.debug = @ + 1]
     [] e.ev = "onshutdown" ->
          [s EXCEPT !.listens = IF e.d \in DOMAIN @ THEN [@ EXCEPT ![e.d] = @ + 1] ELSE @ @@ (e.d :> 1)]
@@ -418,6 +426,7 @@ Check(s, e) ==
                     ELSE ""
              ps  == "C01,C02" \o (IF s.fault THEN ",C15" ELSE "") \o (IF Orphans(s) # {} THEN ",C17" ELSE "")
                               \o (IF s.stopReq THEN ",C14" ELSE "")
+                              \o (IF SyncBars(s) # {} /\ e.infmt THEN ",C12" ELSE "")
          IN <<B(ps, "hang" \o why, e, ToString(<<e.kind, e.pending>>))>>
     [] e.ev = "panic" ->
          <<B("C02", "panic" \o (IF s.detached # {} /\ e.closedsend THEN "/detached-push" ELSE ""), e, e.msg)>>
